@@ -125,6 +125,16 @@ func (Engine) generate(cfg simkit.RunConfig) (any, bool) {
 		return genCrash(c2, backend), true
 	case "latch":
 		return genLatch(c2, backend), true
+	case "commitwait":
+		// C13's commit-wait clause on the commit timestamps transactions really get: every transaction carries a
+		// constraint a few milliseconds ahead of its start, half of them ask for causal consistency only
+		sc := genWorkload(c2, genOpts{maxTxns: 5, pessRate: 0.3, faults: false, topo: false, backend: backend, asyncRate: 0.5, onePCRate: 0.4})
+		r := simkit.Rand(cfg.Seed, "commit-wait")
+		for i := range sc.Txns {
+			sc.Txns[i].CommitWait = "near"
+			sc.Txns[i].Causal = r.Intn(2) == 0
+		}
+		return sc, true
 	case "lockretry":
 		return genLockRetry(c2, backend), true
 	case "stalelock":
@@ -356,6 +366,7 @@ func (Engine) Execute(t *testing.T, cfg simkit.RunConfig, scenario any) *simkit.
 			c.checkC01()
 			c.checkLockExclusion()
 			c.checkC03()
+			c.checkCommitWait()
 			if gcRep != nil {
 				c.checkC14(sc.GC, gcRep)
 				res.Stats["c14.audited"] = 1
